@@ -38,6 +38,31 @@ def on_grid(x: float, eps=1e-6) -> bool:
     return False
 
 
+def grid_dev(x: float) -> float:
+    """distance (beats) of x's fractional part to the nearest snap-grid fraction"""
+    import bisect
+
+    f = x - math.floor(x)
+    i = bisect.bisect_left(GRID_F, f)
+    return min([abs(GRID_F[j] - f) for j in (i - 1, i) if 0 <= j < len(GRID_F)] + [abs(1.0 - f)])
+
+
+def exact_slack(tl, t: float) -> float:
+    """ms by which a writer that puts an object ON its grid point (and tempo changes ON their measure lines) may
+    legitimately move an object admitted as "on the grid" within the admission epsilon: the object's own deviation
+    from its grid point plus the deviations of the tempo changes before it, at the slowest tempo so far.  Zero for
+    charts that sit on the grid exactly; ~1e-4 ms for a chart re-read after the reader reseated its tempo list (float
+    bpm values).  Keeps the 'exact' clause honest without demanding more than the quantifier ("positions representable
+    on the snap grid") grants."""
+    k = active(tl, t)
+    slow = max(60000.0 / tl[j][1] for j in range(k + 1))
+    b = tl[k][2] + (t - tl[k][0]) * tl[k][1] / 60000.0
+    dev = grid_dev(b)
+    for j in range(k + 1):
+        dev += abs(tl[j][2] / 4 - round(tl[j][2] / 4)) * 4
+    return 2 * dev * slow
+
+
 def snap_frac(x: float) -> Fraction:
     """nearest grid fraction of the fractional part (plus the integer part)"""
     q = math.floor(x)
@@ -294,7 +319,7 @@ class SMIO(GameIO):
             exact = all_on_measure_lines(tl)
 
             def tol(t):
-                return 4 * ftol(t) if exact else local_tol(tl, t)
+                return 4 * ftol(t) + exact_slack(tl, t) if exact else local_tol(tl, t)
 
             for k in KINDS_POINT:
                 out.append(first_mismatch(
